@@ -56,6 +56,12 @@ func (k msgServer) SubmitValue(ctx context.Context, msg *types.MsgSubmitValue) (
 	}
 
 	reportingPower := reporterStake.Quo(layertypes.PowerReduction).Uint64()
+	// a report without a whole token of stake behind it has no weight in the aggregate, and an aggregate whose
+	// reporters all have power 0 makes the reward allocation divide by zero in the EndBlocker (the minimum stake
+	// parameter may be set below one token by governance)
+	if reportingPower == 0 {
+		return nil, errorsmod.Wrapf(types.ErrNotEnoughStake, "reporter has %s, at least one whole token (%s) is required", reporterStake, layertypes.PowerReduction)
+	}
 
 	query, err := k.keeper.CurrentQuery(ctx, queryId)
 	if err != nil {
